@@ -517,6 +517,7 @@ func (s *Session) Serve(h Handler) (err error) {
 		s.stateMutex.RLock()
 		inCtx := s.in.ctx
 		s.stateMutex.RUnlock()
+		verifhook.Yield("serve.loop", "")
 		select {
 		case <-inCtx.Done():
 			return inCtx.Err()
